@@ -9,9 +9,11 @@ Every FS operation issued while the proxies are installed gets a global index an
 trace (also streamed to a side file, so the trace survives the death of the process).  A fault is
 `(address, kind)` with kind in {"exc", "die_before", "die_after"}; the address of an operation is
 `(key, role, j)`: the j-th operation of that role on the data directory of `key` (role = "S" for the
-saver thread's operations, "W<i>" for the operations on chunk file i, "R" for reader/probe
-operations issued outside the saver protocol).  Addresses are stable under thread interleaving;
-for deterministic configurations they are in bijection with the global index.
+saver thread's operations, "W<i>" for the operations on chunk file i and for everything a pool task
+(`InProcessPool`) does for chunk i, "R" for reader/probe operations issued outside the saver protocol).
+Addresses are stable under thread interleaving; for deterministic configurations they are in bijection
+with the global index.  Several faults can be armed for one run (each fires once): an exception followed
+by a second exception or a death while the exception handler is closing the savers.
 
 Exceptions are raised in place (OSError).  Death is `os._exit(DEATH_RC)` at the fault point: no
 `finally`, no `atexit`; callers run the scenario in a fork()ed child (see `run_forked`).
@@ -42,6 +44,50 @@ class InjectedIOError(OSError):
     pass
 
 
+# set while a task of `InProcessPool` runs on this thread: the chunk number the task works on
+WORKER = threading.local()
+
+
+class InProcessPool:
+    """Stands in for `concurrent.futures.ProcessPoolExecutor` inside one process, so that the operations of the
+    'worker processes' go through the same FaultFS: `submit` pickles the callable with its arguments (as the real
+    pool does, so the task works on COPIES of the plugin and of its inlined savers), the task unpickles and runs
+    them, and result or exception come back through a `concurrent.futures.Future` (the result pickled once more).
+    sync=True runs the task to completion inside `submit` (one legal timing of a pool, deterministic);
+    sync=False runs tasks on `max_workers` threads."""
+
+    def __init__(self, max_workers=None, sync=True):
+        from concurrent.futures import ThreadPoolExecutor
+        self._threads = None if sync else ThreadPoolExecutor(max_workers=max_workers)
+
+    def submit(self, fn, *args, **kwargs):
+        from concurrent.futures import Future
+        blob = pickle.dumps((fn, args, kwargs))
+        chunk_i = kwargs.get("chunk_i")
+
+        def task():
+            WORKER.i = chunk_i
+            try:
+                f, a, k = pickle.loads(blob)
+                return pickle.loads(pickle.dumps(f(*a, **k)))
+            finally:
+                WORKER.i = None
+
+        if self._threads is not None:
+            return self._threads.submit(task)
+        fut = Future()
+        fut.set_running_or_notify_cancel()
+        try:
+            fut.set_result(task())
+        except Exception as e:  # noqa: BLE001  a pool hands every exception of the task to the future
+            fut.set_exception(e)
+        return fut
+
+    def shutdown(self, wait=True, **kw):
+        if self._threads is not None:
+            self._threads.shutdown(wait=wait)
+
+
 class Op:
     __slots__ = ("g", "name", "path", "path2", "key", "dirkind", "fname", "fname2", "role", "j", "func", "thread", "res", "content")
 
@@ -54,8 +100,10 @@ class FaultFS:
 
     def __init__(self, root, fault=None, trace_path=None, rm_order="sorted", content_of=None):
         self.root = os.path.realpath(root)
-        self.fault = fault          # None | {"key":..., "role":..., "j":..., "kind":...} | {"g": int, "kind":...}
-        self.fired = False
+        # None | one fault | list of faults; a fault is {"key":..., "role":..., "j":..., "kind":...} or {"g": int, "kind":...}
+        self.faults = [] if fault is None else ([dict(f) for f in fault] if isinstance(fault, (list, tuple)) else [dict(fault)])
+        self.fired = False          # did any exception fault fire
+        self._spent = set()
         self.lock = threading.RLock()
         self.ops = []
         self.counters = {}
@@ -130,8 +178,11 @@ class FaultFS:
             op.thread = threading.current_thread().name
             f = op.fname or ""
             g = op.fname2 or ""
+            wi = getattr(WORKER, "i", None)
             if op.func not in SAVER_FUNCS:
                 op.role = "R"
+            elif wi is not None:
+                op.role = f"W{wi}"
             elif op.func in WRITER_FUNCS and f.startswith(("chunk:", "tmp:")):
                 op.role = "W" + f.split(":")[1]
             else:
@@ -162,15 +213,20 @@ class FaultFS:
                 os._exit(DEATH_RC)
 
     def _hit(self, op):
-        ft = self.fault
-        if not ft or self.fired:
-            return None
-        if "g" in ft:
-            if ft["g"] != op.g:
-                return None
-        elif (ft["key"], ft["role"], ft["j"]) != (op.key, op.role, op.j):
-            return None
-        return ft["kind"]
+        """the kind of the armed fault addressed to this operation, if any.  `die_after` is asked twice (at the
+        point and after the operation): it is spent only when it is acted on."""
+        for n, ft in enumerate(self.faults):
+            if n in self._spent:
+                continue
+            if "g" in ft:
+                if ft["g"] != op.g:
+                    continue
+            elif (ft["key"], ft["role"], ft["j"]) != (op.key, op.role, op.j):
+                continue
+            if ft["kind"] == "exc":
+                self._spent.add(n)
+            return ft["kind"]
+        return None
 
     def _log(self, op, res):
         if self.trace_fd is not None:
